@@ -322,6 +322,12 @@ impl Call {
         }
         c.eid_this = rng.edgy_byte();
         c.eid_other = rng.edgy_byte();
+        match rng.below(12) {
+            0 => c.eid_this = c.own,
+            1 => c.eid_this = c.dest,
+            2 => c.dest = c.own,
+            _ => {}
+        }
         if rng.chance(1, 3) {
             c.hist = rng.next() | 1;
         }
@@ -344,6 +350,12 @@ impl Call {
                     _ => rng.below(8) as usize,
                 };
                 c.blob = routing_entries(rng, n);
+                // an entry that describes the sender itself (its EID and physical address)
+                if n > 0 && rng.chance(1, 4) {
+                    let k = rng.below(n as u64) as usize;
+                    let ty = if rng.chance(1, 2) { 0 } else { rng.byte() & 3 };
+                    c.blob[4 * k..4 * k + 4].copy_from_slice(&[ty, 1 + rng.below(4) as u8, c.eid_this, c.own]);
+                }
             }
             Form::ResolveUuid | Form::RGetUuid => c.blob = rng.pattern_bytes(16),
             Form::RGetTypes => {
@@ -366,6 +378,21 @@ impl Call {
                 };
                 let n = body_len(rng, max_body);
                 c.blob = rng.pattern_bytes(n);
+                // a message that itself starts with the framing about to be written (a relayed
+                // message): type byte and/or vendor ID as the first bytes of the body
+                if rng.chance(1, 6) {
+                    let mut pre: Vec<u8> = Vec::new();
+                    if rng.chance(2, 3) {
+                        pre.push(if c.p[0] == 0 { TY_PCI } else { TY_IANA });
+                    }
+                    if c.p[0] == 0 {
+                        pre.extend_from_slice(&[(c.data32 >> 8) as u8, c.data32 as u8]);
+                    } else {
+                        pre.extend_from_slice(&c.data32.to_be_bytes());
+                    }
+                    let k = pre.len().min(c.blob.len());
+                    c.blob[..k].copy_from_slice(&pre[..k]);
+                }
             }
             f if f.is_gen() => {
                 c.hdr = match rng.below(4) {
@@ -831,9 +858,22 @@ pub fn expected(c: &Call) -> Exp {
 pub fn encode_poisoned(c: &Call, cap: usize, poison_seed: u64) -> (Result<Result<usize, ()>, PanicSig>, Vec<u8>, Vec<u8>) {
     let mut r = Rng::new(poison_seed);
     let poison = r.bytes(cap);
-    let mut buf = poison.clone();
-    let res = invoke(c, &mut buf);
+    let (res, buf) = invoke_aligned(c, &poison, (crate::rng::hash_bytes(poison_seed, &c.blob) as usize ^ c.dest as usize ^ c.own as usize) & 7);
     (res, buf, poison)
+}
+
+/// Invoke the encoder on a buffer whose first byte sits at address residue `want` modulo 8 and which
+/// initially holds `init`; returns the result and the buffer contents afterwards. The bytes just
+/// before and after the window are guard bytes that must not change (checked here: a write outside
+/// the caller's slice would be a bug of the harness or UB in the library).
+pub fn invoke_aligned(c: &Call, init: &[u8], want: usize) -> (Result<Result<usize, ()>, PanicSig>, Vec<u8>) {
+    let cap = init.len();
+    let mut store = vec![0xC3u8; cap + 24];
+    let base = store.as_ptr() as usize & 7;
+    let off = 8 + ((want + 8 - base) & 7);
+    store[off..off + cap].copy_from_slice(init);
+    let res = invoke(c, &mut store[off..off + cap]);
+    (res, store[off..off + cap].to_vec())
 }
 
 /// Convenience: encode with a generous buffer; Some(bytes) when the encoder returned Ok(n) with n <= cap.
